@@ -48,6 +48,12 @@ def _regroup_bits(bits: list, ttype) -> list:
     return res
 
 
+def _flatten_bits(v) -> list:
+    if isinstance(v, list):
+        return [b for x in v for b in _flatten_bits(x)]
+    return [v]
+
+
 def translate_statement(  # noqa: C901
     stmt, env: Env, ret_type: TType
 ) -> Tuple[List[Tuple[str, Boolean]], Env]:
@@ -83,6 +89,12 @@ def translate_statement(  # noqa: C901
         target = stmt.targets[0].id
 
         tval, val = translate_expression(stmt.value, env)  # TODO: typecheck
+
+        # A tuple-typed name evaluates to the flat list of its bits: nest the bits as
+        # the type says, so that the new binding gets the bit names of its type
+        if len(get_args(tval)) > 0 and isinstance(val, list):
+            val = _regroup_bits(_flatten_bits(val), tval)
+
         res = decompose_to_symbols(val, f"{target}")
 
         env.bind(Binding(target, tval, [x[0] for x in res]), rebind=target in env)
@@ -110,8 +122,7 @@ def translate_statement(  # noqa: C901
         # A tuple-typed name evaluates to the flat list of its bits: regroup them as
         # the type says, so that the return bits get the names of the declared ones
         if len(get_args(texp)) > 0 and isinstance(vexp, list):
-            if not any(isinstance(b, list) for b in vexp):
-                vexp = _regroup_bits(vexp, texp)
+            vexp = _regroup_bits(_flatten_bits(vexp), texp)
 
         res = decompose_to_symbols(vexp, "_ret")
         env.bind(Binding("_ret", texp, [x[0] for x in res]))
